@@ -594,7 +594,14 @@ func (fx *Fx) binop(st *State, op token.Token, l, r Val, n ast.Node) Val {
 	case token.AND, token.OR, token.XOR, token.SHL, token.SHR, token.AND_NOT:
 		name := map[token.Token]string{token.AND: "bit_and", token.OR: "bit_or", token.XOR: "bit_xor", token.SHL: "bit_shl", token.SHR: "bit_shr", token.AND_NOT: "bit_andnot"}[op]
 		c.declareFun(name, []string{"Int", "Int"}, "Int")
-		return Val{T: fmt.Sprintf("(%s %s %s)", name, l.T, r.T), S: "Int", GT: l.GT}
+		t := fmt.Sprintf("(%s %s %s)", name, l.T, r.T)
+		if op == token.AND {
+			// two's complement: x & m with a non-negative operand lies between 0 and that operand
+			t = c.define("band", "Int", t)
+			st.assume(fmt.Sprintf("(=> (>= %s 0) (and (<= 0 %s) (<= %s %s)))", r.T, t, t, r.T))
+			st.assume(fmt.Sprintf("(=> (>= %s 0) (and (<= 0 %s) (<= %s %s)))", l.T, t, t, l.T))
+		}
+		return Val{T: t, S: "Int", GT: l.GT}
 	}
 	fx.unsup(n, "binary operator %s", op)
 	return Val{}
